@@ -29,7 +29,10 @@ func (s *Service) startHTTPServer() {
 			err = h.ListenAndServe()
 		}
 
-		if err != nil {
+		// A server that is shut down returns http.ErrServerClosed. That is the
+		// outcome of a Stop, not a reason for one; by the time the goroutine gets
+		// here, the service may have been started again.
+		if err != nil && err != http.ErrServerClosed {
 			s.Stop(err)
 		}
 	}()
